@@ -13,12 +13,12 @@ TEMPLATES = [
     ("elem", {"A": ["M"], "B": ["M"], "Z": ["M"]}, ["Z[m] = A[m] * B[m]"]),
     ("matvec", {"A": ["M", "K"], "B": ["K"], "Z": ["M"]}, ["Z[m] = A[m, k] * B[k]"]),
     ("three", {"A": ["K", "M"], "B": ["K", "N"], "C": ["M", "N"], "Z": ["M", "N"]}, ["Z[m, n] = A[k, m] * B[k, n] * C[m, n]"]),
-    ("mttkrp", {"A": ["I", "K", "L"], "B": ["K", "J"], "C": ["L", "J"], "Z": ["I", "J"]}, ["Z[i, j] = A[i, k, l] * B[k, j] * C[l, j]"]),
+    ("mttkrp", {"AX": ["I", "K", "L"], "B": ["K", "J"], "C": ["L", "J"], "ZO": ["I", "J"]}, ["ZO[i, j] = AX[i, k, l] * B[k, j] * C[l, j]"]),
     ("elem3", {"A": ["M"], "B": ["M"], "C": ["M"], "Z": ["M"]}, ["Z[m] = A[m] * B[m] * C[m]"]),
     ("sum", {"A": ["M"], "B": ["M"], "Z": ["M"]}, ["Z[m] = A[m] + B[m]"]),
     ("dot", {"A": ["K"], "B": ["K"], "Z": []}, ["Z[] = A[k] * B[k]"]),
-    ("cascade", {"A": ["K", "M"], "B": ["K", "N"], "C": ["N"], "T": ["M", "N"], "Z": ["M"]},
-     ["T[m, n] = A[k, m] * B[k, n]", "Z[m] = T[m, n] * C[n]"]),
+    ("cascade", {"A": ["K", "M"], "BT": ["K", "N"], "C": ["N"], "T0": ["M", "N"], "Z": ["M"]},
+     ["T0[m, n] = A[k, m] * BT[k, n]", "Z[m] = T0[m, n] * C[n]"]),
     ("cascade2", {"A": ["M"], "B": ["M"], "C": ["M"], "T": ["M"], "Z": ["M"]},
      ["T[m] = A[m] * B[m]", "Z[m] = T[m] * C[m]"]),
 ]
